@@ -16,25 +16,57 @@
 //   c02_strings.inc      str.* sv.*                 inplace_string (histories), string_view
 //   c02_ranges.inc       alg.* span.*               algorithms, spans / mdspan
 //   c02_text.inc         cc.* cs.* num.* chr.*      character conversion, C strings, bit/numeric helpers, calendar kernels
+//
+// Build: one translation unit (no -DC02_PART; used by checks/c02_try.py), or five objects compiled in
+// parallel by checks/props/c02.py: -DC02_PART=0 (main + dispatch + the allocation hooks) and
+// -DC02_PART=1..4 (one part each).
+#if defined(C02_PART) && C02_PART != 0
+#define C02_GUARD_NO_DEFS // the hook and the operator new family are defined once, in part 0
+#endif
 #include "c02_guard.hpp"
 
 using proto::Line;
 
+#if !defined(C02_PART)
 // each returns true when the operation belongs to it; `out` = "impl\tstd"
 static bool step_containers(Line const& l, std::string& out);
 static bool step_strings(Line const& l, std::string& out);
 static bool step_ranges(Line const& l, std::string& out);
 static bool step_text(Line const& l, std::string& out);
-
 #include "c02_containers.inc"
 #include "c02_strings.inc"
 #include "c02_ranges.inc"
 #include "c02_text.inc"
+#define C02_CALL(part) step_##part(l, out)
+#elif C02_PART == 0
+bool c02_step_containers(Line const& l, std::string& out);
+bool c02_step_strings(Line const& l, std::string& out);
+bool c02_step_ranges(Line const& l, std::string& out);
+bool c02_step_text(Line const& l, std::string& out);
+#define C02_CALL(part) c02_step_##part(l, out)
+#elif C02_PART == 1
+static bool step_containers(Line const& l, std::string& out);
+#include "c02_containers.inc"
+bool c02_step_containers(Line const& l, std::string& out) { return step_containers(l, out); }
+#elif C02_PART == 2
+static bool step_strings(Line const& l, std::string& out);
+#include "c02_strings.inc"
+bool c02_step_strings(Line const& l, std::string& out) { return step_strings(l, out); }
+#elif C02_PART == 3
+static bool step_ranges(Line const& l, std::string& out);
+#include "c02_ranges.inc"
+bool c02_step_ranges(Line const& l, std::string& out) { return step_ranges(l, out); }
+#elif C02_PART == 4
+static bool step_text(Line const& l, std::string& out);
+#include "c02_text.inc"
+bool c02_step_text(Line const& l, std::string& out) { return step_text(l, out); }
+#endif
 
+#if !defined(C02_PART) || C02_PART == 0
 static std::string step(Line const& l)
 {
     std::string out;
-    if (step_containers(l, out) || step_strings(l, out) || step_ranges(l, out) || step_text(l, out)) return out;
+    if (C02_CALL(containers) || C02_CALL(strings) || C02_CALL(ranges) || C02_CALL(text)) return out;
     return "bad-op\tbad-op";
 }
 
@@ -43,3 +75,4 @@ int main(int argc, char** argv)
     std::atexit(c02::write_stats);
     return proto::run(argc, argv, c02::observed(step));
 }
+#endif
